@@ -14,21 +14,118 @@ CHECKS = {}
 def chk(pid, engine, level, technique, text, note, ref):
     CHECKS[pid] = dict(engine=engine, level=level, technique=technique, text=text, note=note, ref=ref)
 
-chk("C19", "graphx", "exploration",
+EX = "exploration"
+FE = "fault_enumeration"
+
+chk("C01", "core-exec", EX,
+    "runtime monitor over an event log: constructor-invocation counters + instance identity joined with a reference model; concurrent phase with real goroutines",
+    "Held on the executions produced: directed witnesses, 1 500 (quick) / 40 000 (thorough) seeded buildable registration sets (all lifetimes, keys, groups, In/Out objects, aliases, multi-return, instance values) each with a scope-tree/resolution history, "
+    "plus 40 / 600 concurrent programs (8-32 goroutines resolving the same singletons from different scopes). Every observation of a singleton identity (direct, keyed, group, injected argument, any scope depth) is compared with the output of the single Build-time invocation.",
+    "Trusted: the generated constructor pool (distinct top-level functions) and the reference model in harness/core/model.go. Interleavings inside godi are sampled, not enumerated.",
+    "DESIGN.md §3 C01")
+chk("C02", "conc", EX,
+    "runtime monitor on the -race build: per-(registration, scope) construction counters and instance identity; cache-miss-window stress; parked-constructor schedules at user-code yield points; porcupine set-once register",
+    "Held on: 600 / 20 000 sequential seeded histories; 200 / 5 000 rounds where 2-16 goroutines resolve one scoped identity (directly, through dependents, through groups, different outputs of one constructor) on one scope behind a barrier while constructors yield; "
+    "60 / 600 deterministic schedules with one goroutine parked inside the constructor while another resolves the same identity. Initializers: exactly once per scope creation.",
+    "A failed construction yields no instance (only successful constructions are counted). Instance values are excluded from never-shared.",
+    "DESIGN.md §3 C02")
+chk("C03", "core-exec", EX,
+    "runtime monitor over an event log: every delivery (result or constructor argument) of a transient joined with the constructor invocation that produced it",
+    "Held on directed cases + 1 500 / 40 000 seeded sets biased to transients (consumed by singletons at Build, scoped services, other transients, twice by one constructor, keyed, in groups, across scopes): no instance delivered twice, produced inside the enclosing operation, #invocations = #request sites.",
+    "Failure-free histories only; constructor-registered transients only (statement).",
+    "DESIGN.md §3 C03")
+chk("C04", "core-exec", EX,
+    "runtime monitor: producer registration of every resolved value and of every constructor argument vs the reference binding table; whole identity universe probed; function-value-kind clause",
+    "Held on: 8 function-value kinds (top-level, noinline closures, method values, generic instantiations, reflect.MakeFunc same/different signatures, mixed) x 3 lifetimes; all pairs of ~75 registration forms (each probing all 44 types x {nil,k,k2} keys and {g,h} groups = 410 000 probes in quick); 1 000 / 40 000 seeded random sets.",
+    "Optional dependencies are never combined with a failing provider constructor (DESIGN §7.2).",
+    "DESIGN.md §3 C04")
+chk("C05", "graphx+core-exec", EX,
+    "runtime monitor: independent DFS/SCC oracle vs the real graph (exhaustive small digraphs) and vs Build (registration sets realising digraphs with every edge form); reported path checked edge by edge; process-crash attribution for non-termination",
+    "Graph component: ALL 66 066 digraphs on 1-4 labelled nodes incl. self-loops, each inserted deferred+DetectCycles and incrementally in two orders, plus 400 / 20 000 random 5-40 node graphs. Container: digraphs over K0..K3 x {plain, name:, group:, optional, alias} edges (3 000 sampled in quick, all 327 680 in thorough) + 800 / 20 000 random sets; every successfully built provider resolves every identity (a stack overflow is attributed to the journaled case).",
+    "Both path conventions accepted; group placeholder nodes are contracted; worker stack limit lowered to 64 MB.",
+    "DESIGN.md §3 C05")
+chk("C06", "graphx+core-exec", EX,
+    "runtime monitor: repeated builds + permuted registration orders compared by verdict class and canonical object graph; constructor enter/exit order vs the dependency partial order; topological-order validity on exhaustive DAGs",
+    "Graph component as C05 (every DAG among all digraphs on <=4 nodes + random DAGs: each node once, dependencies first, cached calls stay valid). Container: 400 / 8 000 seeded sets, each built R=8/32 times and under P=4/8 permutations (relative order inside groups preserved).",
+    "Object graphs are compared as trees of constructor names (sharing is C01/C02's business).",
+    "DESIGN.md §3 C06")
+chk("C07", "core-exec", EX,
+    "runtime monitor: Build verdict vs reference lifetime rule on exhaustively enumerated small spaces; scan of every argument singleton/transient constructors received for instances of scoped registrations",
+    "Exhaustive: all 25 DAGs on 3 services x 27 lifetime assignments x 125 per-target edge-form assignments (84 375 sets, every run); 4 services: all 543 DAGs x 81 lifetimes x 5 uniform forms (5 000 sampled in quick, all 219 915 in thorough); 600 / 20 000 random larger sets of both classes.",
+    "Sets with another defect (cycle, missing dependency) are excluded, as the statement says.",
+    "DESIGN.md §3 C07")
+chk("C08", "core-exec", EX,
+    "runtime monitor: Build verdict vs reference model of unsatisfied required dependencies; errors.Is(ErrServiceNotFound) on every resolution after a successful Build",
+    "Held on directed cases + 2 000 / 50 000 seeded sets: valid ones (acceptance: empty groups, absent optional dependencies, initializers needing singletons) and the same sets with 1-3 dependency providers removed (soundness), all lifetimes and constructor forms incl. initializers.",
+    "Only the class 'Build fails' is required for sets with a missing dependency.",
+    "DESIGN.md §3 C08")
+chk("C09", "conc", EX,
+    "Go race detector over a repeated stress workload; recovered-panic / deadlock / result-class monitors; seeded controlled scheduler at user-code yield points; porcupine linearizability against a scope-tree model; real-time closed-means-closed rule",
+    "Held on 300 / 6 000 stress programs (4-16 goroutines x 20-60 ops: Get*/Resolve*/CreateScope/child CreateScope/Close/cancel/mid-run provider.Close) and 400 / 20 000 controlled schedules of 9 small programs; evidence reports distinct schedule traces, overlapping op pairs, race reports.",
+    "Races are attributed to godi only when a conflicting access happens in godi code. Interleavings inside godi's critical sections are sampled.",
+    "DESIGN.md §3 C09")
+chk("C10", "core-exec", FE,
+    "fault enumeration + conservation monitor over the event log (created-by-container = closed-exactly-once, never before an owner Close, decoys untouched)",
+    "For 300 / 6 000 seeded (set, history) pairs the history runs fault-free and then once per constructor invocation position (Build, scope creation, resolution) with that invocation failing (error / panic alternating): ~2 000 / 40 000 executions.",
+    "Lenient reading for failed Build / scope creation: closed by the end of the history. Instance values excluded. Close-vs-construction overlap is C13's.",
+    "DESIGN.md §3 C10")
+chk("C11", "core-exec", EX,
+    "runtime monitor over global sequence numbers: reverse-creation order per owner, dependents before dependencies, descendants before ancestors, scopes before singletons",
+    "Held on 1 000 / 30 000 seeded DAGs of disposables x scope trees (depth <=3) x resolution orders, closes on leaves, inner scopes and the provider; ~43 000 ordered pairs checked in quick.",
+    "Sequential failure-free histories (quantifier). Same-owner pairs for dependents-before-dependencies; outputs of one invocation are a tie.",
+    "DESIGN.md §3 C11")
+chk("C12", "conc", FE,
+    "fault enumeration over subsets of failing Close methods + close-count / return-value monitors; concurrent Close groups behind a barrier on the -race build",
+    "For 120 / 3 000 seeded (set, scope tree, history): every subset of <=6 owned disposables failing on Close (2^n) or seeded subsets beyond; sequential plans repeat every Close, concurrent plans use 2-8 goroutines per Close optionally racing the context watcher.",
+    "When a Close races the context watcher the watcher may be the one that disposes (its error is dropped by design).",
+    "DESIGN.md §3 C12")
+chk("C13", "conc", EX,
+    "controlled interleavings exhaustive over the user-code pause points of one operation vs one Close (and the mirror image), recovered-panic / hang monitors, conservation, porcupine; sequential closed-means-closed probes",
+    "Held on 300 / 8 000 sequential histories and on every pause point of 29 (operation x closer) scenarios (x1 / x6 repetitions): op parked at each constructor callback while scope.Close / ancestor.Close / provider.Close / cancel runs to completion, and closer parked inside each disposable Close while the op runs (~700 overlap executions in quick).",
+    "Wall clock only steers schedules and bounds waits (expiry = inconclusive unless goroutines are stuck in godi in two samples).",
+    "DESIGN.md §3 C13")
+chk("C14", "leak", FE,
+    "weak pointers + goroutine accounting + context Done monitors over N create-use-close cycles; fault enumeration over initializer positions",
+    "Held on ~160 cycle cases (hosts x caller contexts x tree shapes x close modes, N=200 then 400 / 5 000 then 10 000) and ~440 fault cases (Build / provider.CreateScope / child / grandchild x initializer orders x every position x 4 failure kinds).",
+    "Goroutine poll bounded at 10 s; leftovers without godi frames are inconclusive. Heap deltas are information only.",
+    "DESIGN.md §3 C14")
+chk("C15", "core-exec", FE,
+    "API fuzz under recover(); fault enumeration over constructor invocation positions with error / nil / panic(value menu) + errors.Is/As classification, immediate retry and survivor-disposal monitors; class-error probes through every wrapper",
+    "Held on 36 service values x 13 option sets x 3 lifetimes, 56 odd-argument calls, 16 class probes, and 300 / 6 000 seeded (set, history) pairs x every constructor position (~1 700 / 34 000 faulted executions with retry).",
+    "Hashable keys (statement). A constructor returning nil must only not panic the container.",
+    "DESIGN.md §3 C15")
+chk("C16", "web", EX,
+    "request driver over the five integrations with a spy provider and recording scoped services; per-request monitors; concurrent batches on the -race build",
+    "Held on 10 912 / 74 320 cases: 5 frameworks x 32 option sets x 11 exit paths x 6/40 request sequences, real httptest.Server cases (client abort), 40 / 200 concurrent batches of 16-64 requests.",
+    "go-chi and echo/middleware are not in the module cache: chi is driven as plain net/http middleware, echo gets a harness recover middleware. Close invoked twice is fine; disposed exactly once is what counts.",
+    "DESIGN.md §3 C16")
+chk("C17", "registry-seq", EX,
+    "operation-sequence monitor of Collection against a reference registry; provider snapshots re-queried after later edits",
+    "Held on ALL sequences of length <=3 / <=4 over a 15-op alphabet + 1 000 / 30 000 random sequences of length 20 over 4 types x 2 keys x 2 groups; after every step views, a fresh Build (which constructors run, which identities resolve) and every earlier provider are compared with the reference.",
+    "Where the statement is silent (Remove(T) vs keyed/grouped registrations, Count of identities vs calls) every mutually consistent outcome is accepted.",
+    "DESIGN.md §3 C17")
+chk("C18", "core-exec", EX,
+    "runtime monitor: identity (==) of injected Scope/Provider/Context values vs the scope an operation was issued on; context value/cancellation propagation; FromContext on derived contexts; reserved-type registration attempts",
+    "Held on 12 reserved-registration attempts and 300 / 8 000 seeded (built-in consumers of every lifetime, scope tree with nil / Background / cancellable / value contexts, history): ~16 000 injected built-ins, ~4 800 FromContext checks in quick.",
+    "Singletons are expected to receive the root scope and its context.",
+    "DESIGN.md §3 C18")
+chk("C19", "graphx", EX,
     "runtime monitor: reference-model comparison after every step of enumerated/random operation sequences on the real internal/graph",
-    "Every public query of the real DependencyGraph is compared with a map-of-lists reference digraph after every step of ALL operation "
-    "sequences of length <=3 (quick) / <=4 (thorough) over a 52-op alphabet, plus seeded random sequences of length 30-200 over 12 node "
-    "identities (types x keys x groups). Exploration is the right level: the graph is a sequential data structure whose state space is "
-    "unbounded, so the small space is enumerated completely and the rest is sampled.",
-    "Trusted: the reference digraph in harness/graphx/model.go; immediate adds only on graphs that passed the cycle check; depths only on acyclic graphs.",
+    "Every public query of the real DependencyGraph is compared with a map-of-lists reference digraph after every step of ALL operation sequences of length <=3 / <=4 over a 52-op alphabet, plus 2 000 / 60 000 random sequences of length 30-200 over 12 node identities (types x keys x groups).",
+    "Immediate adds only on graphs that passed the cycle check; depths only on acyclic graphs; exact degrees only without duplicate edges.",
     "DESIGN.md §3 C19")
+chk("C20", "registry-seq", EX,
+    "twin monitor: module tree applied through AddModules vs its left-to-right flattening applied by direct calls; ModuleError chain walk",
+    "Held on 800 / 25 000 random module trees (depth <=4, nil entries, Remove/RemoveKeyed leaves, a failing leaf planted at a uniformly chosen position in 45%): identical views, Build class, constructors run and 35-identity resolution table; ModuleError once per enclosing named module, outermost first, cause reachable.",
+    "Twins only, so defects of the registry itself affect both sides identically.",
+    "DESIGN.md §3 C20")
 
 NOT_YET = {}
 
 ENGINES = [
     {"name": "graphx", "path": "harness/graphx", "serves_properties": ["C05", "C06", "C19"],
      "kind_free_text": "reference-digraph monitor over the real internal/graph package (exhaustive small graphs/sequences + seeded random)"},
-    {"name": "core-exec", "path": "harness/{pool,rt,spec,exec,mon}", "serves_properties": ["C01", "C03", "C04", "C05", "C06", "C07", "C08", "C10", "C11", "C15", "C18"],
+    {"name": "core-exec", "path": "harness/core (+ pool, poolgen, rt)", "serves_properties": ["C01", "C03", "C04", "C05", "C06", "C07", "C08", "C10", "C11", "C15", "C18"],
      "kind_free_text": "generated static constructor pool + event log + reference model of the documented container semantics; monitors are pure functions over the recorded events"},
     {"name": "registry-seq", "path": "harness/regx", "serves_properties": ["C17", "C20"],
      "kind_free_text": "operation-sequence monitor of Collection/modules against a reference registry"},
